@@ -38,6 +38,7 @@ structure St where
   nextTsn : Nat := 0                                -- `next_tsn` (nothing is transmitted while the harness feeds packets)
   peerCumAck : Nat := 0                             -- highest cumulative TSN the peer acknowledged
   dcepBuf : List (Nat × Array UInt8) := []          -- `dcep_reassembly`: stream → partial DCEP message (absent = empty)
+  txPlan : List Nat := []                           -- DATA chunks each `transmit()` call of the current packet took from the outbound queue (implementation-supplied, see `Pkt.sent`)
   ev : List (List Nat) := []                        -- events of the current packet (reversed)
 
 def St.emit (s : St) (e : List Nat) : St := { s with ev := e :: s.ev }
@@ -174,8 +175,11 @@ def handleSackSt (s : St) : Cur St := do
     let _dups ← getU16
     let _ ← loopM (sackGapsBody num) (num + 1) 0
     -- a SACK whose cumulative TSN is behind the one already acknowledged was overtaken: its a_rwnd is old news
+    -- `handle_sack` ends with `transmit()`: whatever it sends (queued DCEP ACKs; since 134f6f2 one chunk as a zero-window probe) takes
+    -- TSNs from `next_tsn`. The send side (cwnd, flight, burst limit) is not modelled: the number is read from the endpoint's trace.
     pure { s with peerRwnd := if tsnGt s.peerCumAck cumAck then s.peerRwnd else rwnd,
-                  peerCumAck := if tsnGt cumAck s.peerCumAck then cumAck else s.peerCumAck }
+                  peerCumAck := if tsnGt cumAck s.peerCumAck then cumAck else s.peerCumAck,
+                  nextTsn := u32add s.nextTsn (s.txPlan.headD 0 % 4294967296), txPlan := s.txPlan.tail }
   else pure s
 
 /-- after FORWARD-TSN: "chunks that were waiting behind the skipped TSNs are in order now" -/
@@ -285,6 +289,7 @@ structure Pkt where
   bytes : List UInt8
   crcOk : Bool
   issued : List (Array UInt8)
+  sent : List Nat := []      -- per `transmit()` call made while handling this packet: number of new DATA chunks it sent (each takes one TSN)
 
 /-- control replies first, then channel creations (the harness reads the two from different sources) -/
 def St.digest (s : St) : List (List Nat) :=
@@ -296,7 +301,7 @@ def St.digest (s : St) : List (List Nat) :=
 def runHistory : St → List Pkt → Cur (List (List (List Nat)))
   | _, [] => pure []
   | s, p :: rest => do
-    let r ← onBuf (Buf.ofList p.bytes) (handlePacketSt { s with ev := [] } p.crcOk)
+    let r ← onBuf (Buf.ofList p.bytes) (handlePacketSt { s with ev := [], txPlan := p.sent } p.crcOk)
     let s1 : St := { r.1 with cookies := p.issued ++ r.1.cookies }
     let more ← runHistory s1 rest
     pure (s1.digest :: more)
